@@ -35,11 +35,14 @@ func (d BinomialDist) PMF(k float64) float64 {
 // independent Bernoulli trials with probability d.P.
 func (d BinomialDist) CDF(k float64) float64 {
 	k = math.Floor(k)
+	if k >= float64(d.N) {
+		// Decide this before converting: a k beyond the
+		// range of int does not convert meaningfully.
+		return 1
+	}
 	ki := int(k)
 	if ki < 0 {
 		return 0
-	} else if ki >= d.N {
-		return 1
 	}
 
 	return mathx.BetaInc(1-d.P, float64(d.N-ki), k+1)
